@@ -47,6 +47,11 @@ Theorem C17_nested_normal_form : forall t spos rows ops d,
 Proof. intros t spos rows ops d H1 H2 H3. exact (nested_normal_form t spos H1 H2 H3 rows ops d). Qed.
 Print Assumptions C17_nested_normal_form.
 
+(* ... and every step of such a chain builds a new stream over the same untouched source rows *)
+Theorem C17_nested_step_leaves_source : forall t d o d', napply t d o = Some d' -> nsrc d' = nsrc d.
+Proof. exact nested_step_leaves_source. Qed.
+Print Assumptions C17_nested_step_leaves_source.
+
 Example C17_nested_ex :
   let t := mkTable ["id"; "in"; "z"]%string "in"%string ["x"; "y"]%string in
   let rows := [TN [TL 1; TN [TN [TL 10; TL 11]; TN [TL 20; TL 21]]; TL 7]; TN [TL 2; TN []; TL 8]; TN [TL 3; TN [TN [TL 30; TL 31]]; TL 9]] in
